@@ -62,7 +62,8 @@ const (
 	FeatRelayAdversary = 32768  // C02 outbound: the adversary relays the first connection to the genuine device, cuts it and answers the retry itself
 	FeatNetVariety     = 65536  // short reads (segments split), duplicated mDNS items, write-stall disturbances
 	FeatPairingTies    = 131072 // C10: the peer's approval reaches a hub at the instant its user unregisters / cancels
-	FeatAll            = 262143
+	FeatQuickRetry     = 262144 // C18: the application calls the pairing API within 500 ms of a handshake state change
+	FeatAll            = 524287
 )
 
 // SetFeatForRig forces the dual-stack options of the next hub rig (workloads
@@ -367,6 +368,12 @@ func execute1(t *testing.T, spec RunSpec) (res RunResult) {
 
 func runInBubble(t *testing.T, sc *Scenario, spec RunSpec, res *RunResult) {
 	cfg := simrt.Config{Seed: spec.Seed, Replay: spec.Replay, KeepTrace: spec.KeepTrace, Horizon: sc.Horizon, MaxSteps: sc.Steps, Parallel: sc.Parallel, ParallelBudget: 40}
+	if sc.Parallel > 0 {
+		// race check: vary how often several tasks are released at once and how far they
+		// run before they park again (these runs are not replayable anyway)
+		cfg.Parallel = []float64{0.2, 0.35, 0.6, 0.85}[(spec.Seed>>5)%4]
+		cfg.ParallelBudget = []int{10, 40, 150, 400}[(spec.Seed>>9)%4]
+	}
 	if spec.Stalls && sc.Parallel == 0 && !sc.NoStalls {
 		cfg.StallProb = 0.004
 	}
